@@ -255,7 +255,17 @@ func main() {
 		} else {
 			oracle(s, i, res)
 		}
-		coq = append(coq, s.coq())
+		if o.Raced != "" && o.Ambiguous == "" {
+			res.Count("not-modelled:hand-off-raced-consumer-action")
+			res.Notes = append(res.Notes, "oracle only for "+s.Name+": "+o.Raced)
+			empty := s
+			eo := *o
+			eo.Events, eo.Tap, eo.Reads = nil, nil, make([][]Read, len(s.Consumers))
+			empty.Obs = &eo
+			coq = append(coq, empty.coq())
+		} else {
+			coq = append(coq, s.coq())
+		}
 		res.Evaluations++
 		res.Count("streams:" + s.Kind)
 		res.CountN("bytes-posted", o.Posted)
